@@ -201,7 +201,9 @@ fn parse_string(input: &str, span: Span) -> Result<String, Error> {
             b'\'' => '\'',
             b'"' => '"',
             b'\r' | b'\n' => {
-                rem = rem.trim_start();
+                // a line continuation only skips these ascii whitespace characters,
+                // `str::trim_start` would also skip unicode whitespace.
+                rem = rem.trim_start_matches(|c: char| matches!(c, ' ' | '\t' | '\n' | '\r'));
                 continue;
             }
             _ => return Err(make_err(rem, "invalid escape")),
